@@ -11,17 +11,40 @@
 (* |sum| < 2^(2p-3)) the documented error "1 ulp of the less significant     *)
 (* word during each addition" is smaller than one unit, hence the value held *)
 (* by the object must EQUAL the abstract state.                              *)
-(* Operations <<k, a, b>>: 0 add b B^a; 1 negate; 2 *= int b; 3 *= T(b);      *)
-(* 4 probe a(b B^a) (non mutating).                                          *)
+(* Operations <<k, a, b>> (y = b B^a):                                       *)
+(*   0 += y    1 negate             2 *= int b    3 *= T(b)    6 -= y          *)
+(*   4 probe a(y) ("Return the result of adding a number to sum (but don't    *)
+(*     change sum)")                                                          *)
+(*   5 a = y       operator=(T): "Set the accumulator to a number ... set     *)
+(*     sum = y"                                                               *)
+(*   7 compare with y: the six operators ==, !=, <, <=, >, >= "on an          *)
+(*     Accumulator and a number" (non mutating)                               *)
+(*   8 remainder(y): "Reduce accumulator to the range [-y/2, y/2]" (a = 0)    *)
+(*   9 copy construction (the history continues on the copy)                  *)
+(*   10 assignment of the accumulator over an unrelated one (continues there) *)
+(*   11 a = Accumulator(y): construction from T followed by assignment        *)
+(* Constructor forms (first operation of every history, and only there):      *)
+(*   12 Accumulator a(y)   13 Accumulator a = y ("This is not declared        *)
+(*      explicit, so that you can write Accumulator<double> a = 5;")          *)
+(*   14 Accumulator a  (y defaults to 0)                                      *)
+(* every one of them: "set sum = y".                                          *)
 (***************************************************************************)
 EXTENDS Integers, Sequences
 
 AccZero == <<0, 0, 0>>
 AccScale(E, n) == <<E[1] * n, E[2] * n, E[3] * n>>
+AccUnit(a, b) == [i \in 1..3 |-> IF i = a + 1 THEN b ELSE 0]
+AccCtorKinds == {12, 13, 14}
+AccSetKinds == {5, 11, 12, 13}            \* "set sum = y" whatever was held before
+AccKeepKinds == {4, 7, 9, 10}             \* the sum is not changed
+AccTerminalKinds == {8}                   \* the successor is a set (ties, see AccRemSet): only as the last operation
 AccApply(E, op) ==
   CASE op[1] = 0 -> [E EXCEPT ![op[2] + 1] = @ + op[3]]
+    [] op[1] = 6 -> [E EXCEPT ![op[2] + 1] = @ - op[3]]
     [] op[1] = 1 -> AccScale(E, -1)
     [] op[1] \in {2, 3} -> AccScale(E, op[3])
+    [] op[1] \in AccSetKinds -> AccUnit(op[2], op[3])
+    [] op[1] = 14 -> AccZero
     [] OTHER -> E
 \* canonical form: l0, l1 in [0, B), top signed
 AccNorm(E, bb) ==
@@ -35,4 +58,39 @@ AbsI(n) == IF n < 0 THEN -n ELSE n
 AccInRange(E, bb) ==
   /\ \A i \in 1..3 : AbsI(E[i]) <= 2^27
   /\ LET t == AccNorm(E, bb)[3] IN IF bb = 15 THEN t >= -(2^14) /\ t < 2^14 ELSE t >= -(2^20) /\ t < 2^20
+
+(* ------------------------------------------------------------------------ *)
+(* Comparison with a number y = b B^a.  AccCmp3 is the exact three-way       *)
+(* comparison of the sum with y (on canonical limbs the order is             *)
+(* lexicographic from the top).  The class comment allows the value reported *)
+(* by a() to be off by "1 ulp in the reported sum", so the outcome of a      *)
+(* comparison is only decided by the model when y = 0 (the sum is zero iff   *)
+(* the reported value is, and they have the same sign) or when sum and y     *)
+(* differ by more than B^2 (far more than an ulp of any sum in range).       *)
+(* Whatever the values, the six operators must be the six relations of ONE   *)
+(* three-way comparison c (the comparison of a() with y):                    *)
+(* ------------------------------------------------------------------------ *)
+AccSgnN(n) == IF n[3] # 0 THEN (IF n[3] > 0 THEN 1 ELSE -1) ELSE IF n[2] # 0 \/ n[1] # 0 THEN 1 ELSE 0
+AccDiff(E, a, b, bb) == AccNorm([E EXCEPT ![a + 1] = @ - b], bb)
+AccCmp3(E, a, b, bb) == AccSgnN(AccDiff(E, a, b, bb))
+AccCmpDecided(E, a, b, bb) == b = 0 \/ AccDiff(E, a, b, bb)[3] \notin {-2, -1, 0, 1}
+\* o = <<c, eq, ne, lt, le, gt, ge>>
+AccCmpFamily(o) == /\ o[1] \in {-1, 0, 1}
+                   /\ o[2] = (o[1] = 0) /\ o[3] = (o[1] # 0) /\ o[4] = (o[1] < 0)
+                   /\ o[5] = (o[1] <= 0) /\ o[6] = (o[1] > 0) /\ o[7] = (o[1] >= 0)
+
+(* ------------------------------------------------------------------------ *)
+(* remainder(y), y = b > 0 an integer below B: the accumulator afterwards    *)
+(* holds a value congruent to the sum modulo y in [-y/2, y/2]: the centred   *)
+(* residue; at an exact tie (2 c = y) the documentation does not say which   *)
+(* end (named freedom RemTieFree), so the result is a set.                   *)
+(* ------------------------------------------------------------------------ *)
+AccResidue(E, b, bb) ==          \* (c0 + c1 B + c2 B^2) mod b with 32-bit intermediates (b < 2^15)
+  LET Bm == (2^bb) % b IN ((E[1] % b) + ((E[2] % b) * Bm) + (((((E[3] % b) * Bm) % b) * Bm))) % b
+AccRemSet(E, b, bb) ==
+  LET c == AccResidue(E, b, bb) IN
+  IF 2 * c < b THEN {c} ELSE IF 2 * c > b THEN {c - b} ELSE {c, c - b}
+\* value of canonical limbs that hold a small integer (|v| < B), else "big"
+AccSmall(n, bb) == IF n[3] = 0 /\ n[2] = 0 THEN n[1]
+                   ELSE IF n[3] = -1 /\ n[2] = 2^bb - 1 /\ n[1] > 0 THEN n[1] - 2^bb ELSE 2^bb
 =============================================================================
